@@ -8,7 +8,7 @@ rules, `re` is used only through the one pattern `_sdn_[0-9]+_$` whose match is 
 uninterpreted up to "str(n) for n >= 0 is a non-empty digit string"."""
 import ast, itertools, time
 from z3 import (Int, IntSort, BoolSort, ArraySort, Array, Const, ForAll, Exists, And, Or, Not, Implies, If, IntVal, BoolVal, Store, K,
-                SimpleSolver, Solver, unsat, unknown, Function, is_true, is_false)
+                SimpleSolver, Solver, unsat, sat, unknown, Function, is_true, is_false)
 
 _n = itertools.count()
 CHR = ArraySort(IntSort(), IntSort())
@@ -76,10 +76,10 @@ def lower(x):
 
 
 class St:
-    def __init__(self, pc=None, env=None):
-        self.pc = list(pc or []); self.env = dict(env or {})
+    def __init__(self, pc=None, env=None, stack=None):
+        self.pc = list(pc or []); self.env = dict(env or {}); self.stack = list(stack or [])
     def fork(self):
-        return St(self.pc, self.env)
+        return St(self.pc, self.env, self.stack)
 
 
 class StrSE:
@@ -276,21 +276,18 @@ class StrSE:
     # ------------------------------------------------------------ calls
     def call_method(self, st, name, args, k):
         c = self.contracts.get(name)
-        if c is not None and (name in self.stack or c.get('always')):
+        if c is not None and (name in st.stack or c.get('always')):
             return c['apply'](self, st, args, k)
+        if len(st.stack) > 12: raise Unsupported('call depth')
         fn = self.methods[name]
         params = [a.arg for a in fn.args.args][1:]
         env = dict(zip(params, args))
-        saved = st.env; st.env = env
-        self.stack.append(name)
-        depth = len(self.stack)
+        saved_env, saved_stack = st.env, st.stack
+        st.env = env; st.stack = st.stack + [name]
         def leave(s, v):
-            s.env = saved
-            del self.stack[depth - 1:]
+            s.env = saved_env; s.stack = saved_stack
             k(s, v)
-            self.stack.append(name) if False else None
         self.block(st, fn.body, lambda s: leave(s, ('none',)), leave, fn)
-        if len(self.stack) >= depth: del self.stack[depth - 1:]
 
     # ------------------------------------------------------------ statements
     def block(self, st, stmts, knext, kret, fn):
@@ -346,20 +343,35 @@ class StrSE:
         self.ev(st, node.iter, with_range)
 
 
-def discharge(hyps, goal, timeout_ms=20000):
+def discharge(hyps, goal, timeout_ms=20000, cheap=False, inputs=None):
+    """stage 1: z3 E-matching only; then cvc5, z3 default strategy (MBQI), /usr/bin/z3.  cheap=True: first stage only with a short
+    budget (used once an obligation of the same name has already failed: a broken function fails the same obligation on many paths)"""
     from pyvc.verify import _cli
-    s = SimpleSolver(); s.set('timeout', timeout_ms); s.set('mbqi', False); s.add(hyps); s.add(Not(goal))
+    s = SimpleSolver(); s.set('timeout', 1500 if cheap else min(timeout_ms, 8000)); s.set('mbqi', False); s.add(hyps); s.add(Not(goal))
     t = time.time(); r = s.check()
     if r == unsat: return 'discharged', time.time() - t, '', 'z3-ematching'
     r1 = s.reason_unknown() if r == unknown else 'sat'
+    if cheap:
+        return 'failed', time.time() - t, 'z3-ematching: %s (other back ends not tried: an obligation of the same name already failed)' % r1, ''
     text = '(set-logic ALL)\n' + s.to_smt2()
-    r2 = _cli(['/usr/bin/cvc5', '--tlimit=20000'], text, 20)
+    r2 = _cli(['/usr/bin/cvc5', '--tlimit=10000'], text, 10)
     if r2 == 'unsat': return 'discharged', time.time() - t, '', 'cvc5'
-    s4 = Solver(); s4.set('timeout', 20000); s4.add(hyps); s4.add(Not(goal)); r4 = s4.check()
+    s4 = Solver(); s4.set('timeout', 10000); s4.add(hyps); s4.add(Not(goal)); r4 = s4.check()
     if r4 == unsat: return 'discharged', time.time() - t, '', 'z3-mbqi'
-    r3 = _cli(['/usr/bin/z3', '-T:15'], text, 15)
+    r3 = _cli(['/usr/bin/z3', '-T:8'], text, 8)
     if r3 == 'unsat': return 'discharged', time.time() - t, '', 'z3-4.8-cli'
     det = 'z3-ematching: %s; cvc5: %s; z3-mbqi: %s; z3-4.8: %s' % (r1, r2, s4.reason_unknown() if r4 == unknown else r4, r3)
-    if all(('timeout' in str(x) or 'canceled' in str(x)) for x in (r1, r2, r3)):
+    if r4 == sat and inputs:
+        # the verifier's counterexample: concrete input strings read off the model (replayed natively by the caller)
+        try:
+            m = s4.model(); vals = {}
+            for name, x in inputs.items():
+                n = m.eval(x.n, model_completion=True).as_long()
+                vals[name] = ''.join(chr(m.eval(x.a[i], model_completion=True).as_long()) for i in range(max(0, min(n, 2000))))
+            det += '; model=' + repr(vals)
+            return 'failed', time.time() - t, det, vals
+        except Exception as e:
+            det += '; model extraction failed: %s' % e
+    if r4 != sat and all(('timeout' in str(x) or 'canceled' in str(x)) for x in (r1, r2, r3)):
         return 'undecided', time.time() - t, det, ''
     return 'failed', time.time() - t, det, ''
